@@ -49,6 +49,7 @@ GEOMS: Dict[str, Any] = {
 }
 # two methane molecules 4.6 A apart (one input "molecule"): long-range pair terms (dispersion corrections) act between them
 _m = GEOMS["ch4"][1]
+GEOMS["h2_pair"] = ([1, 1, 1, 1], [[0.0, 0.0, 0.0], [0.0, 0.0, 0.70], [2.30, 0.0, 0.0], [2.30, 0.0, 0.70]])     # two parallel H2, contact just outside the dispersion switch (2.214 A)
 GEOMS["ch4_dimer"] = ([6, 6] + [1] * 8, [_m[0], [_m[0][0] + 4.6, _m[0][1] + 0.3, _m[0][2] - 0.2]] + _m[1:] + [[a + 4.6, b + 0.3, c - 0.2] for a, b, c in _m[1:]])
 # two waters 30 A apart (one input "molecule"): pairs beyond every short-range cut-off of the package (overlaps are cut at 40 bohr)
 _w = GEOMS["h2o"][1]
